@@ -21,7 +21,7 @@ from inferno.extra import ExactNeuron
 from inferno.functional import exp_stdp_post_kernel, exp_stdp_pre_kernel
 from inferno.learn import (DelayAdjustedKernelSTDP, DelayAdjustedKernelSTDPD, DelayAdjustedMSTDP, DelayAdjustedMSTDPD,
                            DelayAdjustedSTDP, DelayAdjustedSTDPD, KernelSTDP)
-from inferno.neural import Conv2D, DeltaCurrent, LinearDense, LinearDirect, LinearLateral, Serial
+from inferno.neural import Biclique, Conv2D, DeltaCurrent, LinearDense, LinearDirect, LinearLateral, Serial
 
 import transval
 from runner import Exploration, Finding
@@ -63,11 +63,11 @@ def defs_identical():
 
 
 # --------------------------------------------------------------------------------------------------
-def make_case(rng, variants, sign, conn, geom, B, T, red, mode, zero_delay=False, pre=None, post=None, signal_mode=None):
+def make_case(rng, variants, sign, conn, geom, B, T, red, mode, zero_delay=False, pre=None, post=None, signal_mode=None, dt=None):
     """mode: 'end' (accumulate, update at the end) | 'each' (update() after every step; the D variants then LEARN their delays)
              | 'sched' (delays reset by the harness before every step, update at the end)"""
     nin, nout, nw = geom_sizes(conn, geom)
-    dt = rng.choice([0.5, 1.0, 2.0])
+    dt = rng.choice([0.5, 1.0, 2.0]) if dt is None else dt
     mag = lambda: rng.choice([0.125, 0.25, 0.5, 1.0, 0.75])
     tc = lambda: rng.choice([2.0, 4.0, 5.0, 10.0, 20.0])
     D = rng.choice([2, 3, 4])
@@ -111,7 +111,8 @@ def set_ktensor(rng, case, kind):
     return case
 
 
-def build(case, variant):
+def build_conn(case):
+    """the connection of a case (default updater attached) and its output shape"""
     p, geom, conn, B = case["params"], case["geom"], case["conn"], case["B"]
     dt = p["dt"]
     delay = case["D"] * dt
@@ -130,12 +131,46 @@ def build(case, variant):
                    synapse=syn, delay=delay, batch_size=B)
         outshape = tuple(c.outshape)
     c.updater = c.defaultupdater()
-    layer = Serial(c, ExactNeuron(outshape, dt, rest_v=-60.0, thresh_v=-45.0, batch_size=B))
-    red = torch.sum if case["red"] == "sum" else torch.mean
-    kw = dict(batch_reduction=red)
-    rates = dict(lr_pos=p["lrPos"], lr_neg=p["lrNeg"], tc_pos=p["tcPos"], tc_neg=p["tcNeg"])
-    kpos = {"learning_rate": p["lrPos"], "time_constant": p["tcPos"]}
-    kneg = {"learning_rate": p["lrNeg"], "time_constant": p["tcNeg"]}
+    return c, outshape
+
+
+REDUCTIONS = {"sum": torch.sum, "mean": torch.mean}
+HYPER = {"lrPos": "lr_pos", "lrNeg": "lr_neg", "tcPos": "tc_pos", "tcNeg": "tc_neg"}
+
+
+def kernel_sides(variant, kpos, kneg):
+    """the keyword names under which the kernel trainers take the causal ('pos') and acausal ('neg') parameter dicts"""
+    if variant == "dakd":     # the causal branch of the delay rule carries lr_neg / tc_neg
+        return {"kernel_post_kwargs": kneg, "kernel_pre_kwargs": kpos}
+    return {"kernel_post_kwargs": kpos, "kernel_pre_kwargs": kneg}
+
+
+def make_trainer(variant, p, red, kpos=None, kneg=None):
+    """the trainer of a variant with CONSTRUCTOR hyper-parameters p (the defaults of every cell registered without overrides)"""
+    kw = dict(batch_reduction=REDUCTIONS[red])
+    rates = {HYPER[k]: p[k] for k in HYPER}
+    kpos = kpos if kpos is not None else {"learning_rate": p["lrPos"], "time_constant": p["tcPos"]}
+    kneg = kneg if kneg is not None else {"learning_rate": p["lrNeg"], "time_constant": p["tcNeg"]}
+    if variant == "da":
+        return DelayAdjustedSTDP(**rates, **kw)
+    if variant == "dad":
+        return DelayAdjustedSTDPD(**rates, **kw)
+    if variant == "dak":
+        return DelayAdjustedKernelSTDP(exp_stdp_post_kernel, exp_stdp_pre_kernel, **kernel_sides(variant, kpos, kneg), **kw)
+    if variant == "dakd":
+        return DelayAdjustedKernelSTDPD(exp_stdp_post_kernel, exp_stdp_pre_kernel, **kernel_sides(variant, kpos, kneg), **kw)
+    if variant in ("k", "kd"):
+        return KernelSTDP(exp_stdp_post_kernel, exp_stdp_pre_kernel, **kernel_sides(variant, kpos, kneg), delayed=(variant == "kd"), **kw)
+    if variant.startswith("damd"):
+        return DelayAdjustedMSTDPD(**rates, **kw)
+    return DelayAdjustedMSTDP(**rates, **kw)
+
+
+def build(case, variant):
+    p = case["params"]
+    c, outshape = build_conn(case)
+    layer = Serial(c, ExactNeuron(outshape, p["dt"], rest_v=-60.0, thresh_v=-45.0, batch_size=case["B"]))
+    kpos = kneg = None
     kt = case.get("ktensor")
     if kt and variant in KERNEL:       # kernel hyper-parameters given as TENSORS (registered as buffers by the trainers)
         wshape = tuple(c.weight.shape) + (1,)
@@ -148,20 +183,7 @@ def build(case, variant):
             return torch.tensor(case["kparams"][name], dtype=torch.float64).reshape(wshape)
         kpos = {"learning_rate": tens("lrPos"), "time_constant": tens("tcPos")}
         kneg = {"learning_rate": tens("lrNeg"), "time_constant": tens("tcNeg")}
-    if variant == "da":
-        tr = DelayAdjustedSTDP(**rates, **kw)
-    elif variant == "dad":
-        tr = DelayAdjustedSTDPD(**rates, **kw)
-    elif variant == "dak":
-        tr = DelayAdjustedKernelSTDP(exp_stdp_post_kernel, exp_stdp_pre_kernel, kpos, kneg, **kw)
-    elif variant == "dakd":     # the causal branch of the delay rule carries lr_neg / tc_neg
-        tr = DelayAdjustedKernelSTDPD(exp_stdp_post_kernel, exp_stdp_pre_kernel, kneg, kpos, **kw)
-    elif variant in ("k", "kd"):
-        tr = KernelSTDP(exp_stdp_post_kernel, exp_stdp_pre_kernel, kpos, kneg, delayed=(variant == "kd"), **kw)
-    elif variant.startswith("damd"):
-        tr = DelayAdjustedMSTDPD(**rates, **kw)
-    else:
-        tr = DelayAdjustedMSTDP(**rates, **kw)
+    tr = make_trainer(variant, p, case["red"], kpos, kneg)
     tr.register_cell("cell", layer.cell)
     return layer, tr, outshape
 
@@ -389,6 +411,193 @@ def synapse_case(case, w, tstr):
     return c
 
 
+# --------------------------------------------------------------------------------------------------
+# SEVERAL CELLS UNDER ONE TRAINER, PER-CELL HYPER-PARAMETER OVERRIDES.  The property quantifies over configurations: a trainer
+# holds any number of cells (of one layer that may own several connections and neuron groups), and its constructor arguments
+# are defaults that register_cell(...) may override cell by cell.  Every cell must follow the documented rule of ITS OWN
+# presynaptic / postsynaptic spike times, with ITS OWN (effective) learning rates — signs included —, time constants and batch
+# reduction.  Cells that share a connection share its updater, whose accumulators then hold the sum of the cells' parts.
+def make_multi(rng, variants, topo, mode, signal_mode=None, zero_delay=False):
+    """topo: 'serial' (one Serial cell, registered with overrides) | 'biclique' (1-3 connections x 1-2 neuron groups, two or more
+    of its cells registered — in random order — with one trainer)"""
+    dt = rng.choice([0.5, 1.0, 2.0])
+    B, T = rng.choice([1, 2, 3]), rng.randint(5, 10)
+    nout = rng.randint(1, 3)
+    if topo == "serial":
+        nc, ng = 1, 1
+    else:
+        nc, ng = rng.choice([(2, 2), (2, 2), (2, 1), (1, 2), (3, 1), (3, 2)])
+    same_in = rng.random() < 0.6            # connections of one shape (so that their monitors are interchangeable) or of different shapes
+    nin0 = rng.randint(1, 3)
+    proto = make_case(rng, variants, SIGNS[rng.randrange(4)], "dense", {"nin": 1, "nout": 1}, B, T, "sum", mode, zero_delay=zero_delay,
+                      signal_mode=signal_mode, dt=dt)
+    conns = []
+    for _ in range(nc):
+        kind = rng.choice(["dense", "dense", "dense", "direct", "lateral"]) if nout > 1 else "dense"
+        geom = {"nin": nin0 if same_in else rng.randint(1, 3), "nout": nout} if kind == "dense" else {"n": nout}
+        c = make_case(rng, variants, (1, 1), kind, geom, B, T, "sum", mode, zero_delay=zero_delay, dt=dt)
+        conns.append({"conn": kind, "geom": geom, "D": c["D"], "delays": c["delays"], "pre": c["pre"]})
+    groups = [{"post": bitrows(rng, T, B, nout, rng.choice([0.2, 0.4, 0.6]))} for _ in range(ng)]
+    defaults = {"params": proto["params"], "red": rng.choice(["sum", "mean"])}
+    pairs = [(i, j) for i in range(nc) for j in range(ng)]
+    rng.shuffle(pairs)                       # registration order is part of the configuration
+    pairs = pairs[:max(min(2, len(pairs)), rng.randint(1, len(pairs)))]
+    cells = []
+    for ci, gj in pairs:
+        over = [k for k in ("lrPos", "lrNeg", "tcPos", "tcNeg", "red") if rng.random() < 0.4] if rng.random() < 0.75 else []
+        if topo == "serial" and not any(k.startswith("lr") for k in over):
+            over = sorted(set(over) | {rng.choice(["lrPos", "lrNeg"])})
+        eff, red = dict(defaults["params"]), defaults["red"]
+        for k in over:
+            if k == "red":
+                red = rng.choice(["sum", "mean"])
+            elif k.startswith("lr"):        # either sign, whatever the sign of the trainer's default
+                eff[k] = rng.choice([1.0, -1.0]) * rng.choice([0.125, 0.25, 0.5, 1.0, 0.75])
+            else:
+                eff[k] = rng.choice([2.0, 4.0, 5.0, 10.0, 20.0])
+        cells.append({"connection": ci, "group": gj, "override": over, "params": eff, "red": red})
+    return {"multi": topo, "variants": variants, "dt": dt, "B": B, "T": T, "mode": mode, "signal": proto["signal"],
+            "trainer_defaults": defaults, "connections": conns, "groups": groups, "cells": cells}
+
+
+def cell_case(mc, k):
+    """cell k of a multi-cell configuration as a stand-alone single-cell case: its own connection, its own neuron group, its
+    EFFECTIVE hyper-parameters (trainer defaults overlaid with its overrides) — what the property says it must behave like"""
+    cell = mc["cells"][k]
+    cc, g = mc["connections"][cell["connection"]], mc["groups"][cell["group"]]
+    return {"variants": mc["variants"], "params": cell["params"], "conn": cc["conn"], "geom": cc["geom"], "B": mc["B"], "T": mc["T"],
+            "D": cc["D"], "delays": cc["delays"], "red": cell["red"], "mode": mc["mode"], "pre": cc["pre"], "post": g["post"],
+            "signal": mc["signal"]}
+
+
+def override_kwargs(variant, cell):
+    """register_cell keyword arguments of a cell: only what it overrides (the kernel trainers take a whole parameter dict per side)"""
+    p, over = cell["params"], cell["override"]
+    kw = {}
+    if variant in KERNEL:
+        sides = kernel_sides(variant, {"learning_rate": p["lrPos"], "time_constant": p["tcPos"]},
+                             {"learning_rate": p["lrNeg"], "time_constant": p["tcNeg"]})
+        inv = kernel_sides(variant, "pos", "neg")
+        for name, side in inv.items():
+            if any(k in over for k in (("lrPos", "tcPos") if side == "pos" else ("lrNeg", "tcNeg"))):
+                kw[name] = sides[name]
+    else:
+        kw = {HYPER[k]: p[k] for k in over if k in HYPER}
+    if "red" in over:
+        kw["batch_reduction"] = REDUCTIONS[cell["red"]]
+    return kw
+
+
+def run_real_multi(mc, variant):
+    """→ {'conns': [per connection, run_real's format]} or {'exc', 'step'}"""
+    torch.set_default_dtype(torch.float64)
+    target = VARIANTS[variant][1]
+    nc = len(mc["connections"])
+    outs = [{"steps": [], "delays": []} for _ in range(nc)]
+    res = {"conns": outs}
+    t = -1
+    try:
+        with torch.no_grad():
+            dt, B, sig = mc["dt"], mc["B"], mc["signal"]
+            conns, outshape = [], None
+            for cc in mc["connections"]:
+                c, outshape = build_conn({"params": {"dt": dt}, "geom": cc["geom"], "conn": cc["conn"], "B": B, "D": cc["D"]})
+                conns.append(c)
+            neurons = [ExactNeuron(outshape, dt, rest_v=-60.0, thresh_v=-45.0, batch_size=B) for _ in mc["groups"]]
+            if mc["multi"] == "serial":
+                layer = Serial(conns[0], neurons[0])
+                get = lambda ci, gj: layer.cell                                       # noqa: E731
+            else:
+                layer = Biclique([(f"c{i}", c) for i, c in enumerate(conns)], [(f"n{j}", n) for j, n in enumerate(neurons)])
+                get = lambda ci, gj: layer.get_cell(f"c{ci}", f"n{gj}")               # noqa: E731
+            tr = make_trainer(variant, mc["trainer_defaults"]["params"], mc["trainer_defaults"]["red"])
+            for k, cell in enumerate(mc["cells"]):
+                tr.register_cell(f"cell{k}", get(cell["connection"], cell["group"]), **override_kwargs(variant, cell))
+            learn = mc["mode"] == "each" and target == "delay"
+            for cc, c, o in zip(mc["connections"], conns, outs):
+                c.delay = torch.tensor(cc["delays"][0], dtype=torch.float64).reshape(c.delay.shape)
+                o["p0"] = flat(getattr(c, target))
+            for t in range(mc["T"]):
+                for cc, c, o in zip(mc["connections"], conns, outs):
+                    if not learn:
+                        c.delay = torch.tensor(cc["delays"][t], dtype=torch.float64).reshape(c.delay.shape)
+                    o["delays"].append(flat(c.delay))
+                posts = [bits_tensor(g["post"][t], outshape).bool() for g in mc["groups"]]
+                if mc["multi"] == "serial":
+                    layer(bits_tensor(mc["connections"][0]["pre"][t], tuple(conns[0].inshape)), neuron_kwargs={"override": posts[0]})
+                else:
+                    layer({f"c{i}": (bits_tensor(cc["pre"][t], tuple(c.inshape)),) for i, (cc, c) in enumerate(zip(mc["connections"], conns))},
+                          neuron_kwargs={f"n{j}": {"override": x} for j, x in enumerate(posts)})
+                if sig is None:
+                    tr()
+                elif sig["mode"] == "scalar":
+                    tr(sig["v"][t], scale=sig["scale"])
+                else:
+                    tr(torch.tensor(sig["v"][t], dtype=torch.float64), scale=sig["scale"])
+                for cc, c, o in zip(mc["connections"], conns, outs):
+                    acc = getattr(c.updater, target)
+                    pos, neg = flat(acc.pos), flat(acc.neg)
+                    par = None
+                    if mc["mode"] == "each" or t == mc["T"] - 1:
+                        c.update()
+                        par = flat(getattr(c, target))
+                        if learn:
+                            c.delay = c.delay.clamp(0.0, cc["D"] * dt)
+                    o["steps"].append((pos, neg, par))
+    except Exception as e:
+        res["exc"] = f"{type(e).__name__}: {e}"
+        res["step"] = t
+    return res
+
+
+def cells_on(mc, ci):
+    return [k for k, cell in enumerate(mc["cells"]) if cell["connection"] == ci]
+
+
+def sum_tables(tabs):
+    """accumulators of a connection shared by several cells: values add, a part is present when any cell hands it"""
+    out = {}
+    for name in ("M", "S"):
+        pos, pm, neg, nm = (np.copy(x) for x in tabs[0][name])
+        for tb in tabs[1:]:
+            pos, pm, neg, nm = pos + tb[name][0], pm | tb[name][1], neg + tb[name][2], nm | tb[name][3]
+        out[name] = [pos, pm, neg, nm]
+    return out
+
+
+def multi_requests(mc, variant, real):
+    """driver requests of every registered cell (its own trains, effective hyper-parameters, the delays of its connection)"""
+    lines, spans, tstrs = [], {}, {}
+    for k, cell in enumerate(mc["cells"]):
+        l, tstrs[k] = request_lines(cell_case(mc, k), variant, real["conns"][cell["connection"]]["delays"])
+        spans[k] = (len(lines), len(lines) + len(l))
+        lines += l
+    return lines, spans, tstrs
+
+
+def judge_multi(mc, variant, real, resp, spans, tstrs):
+    """[(connection, stream, weight, step, what, expected, observed, per-cell history strings)] — each connection's accumulators and
+    parameter against the sum of the documented updates of the cells registered on it"""
+    out = []
+    for ci in range(len(mc["connections"])):
+        ks = cells_on(mc, ci)
+        if not ks:
+            continue
+        tables = sum_tables([tables_of(resp[spans[k][0]:spans[k][1]], mc["T"]) for k in ks])
+        for name, w, t, what, exp, obs in judge(cell_case(mc, ks[0]), variant, real["conns"][ci], tables):
+            out.append((ci, name, w, t, what, exp, obs, {f"cell{k}": tstrs[k][w] for k in ks}))
+    return out
+
+
+def describe_multi(mc, ci, w, hist, delays):
+    return {"layer": mc["multi"], "trainer_defaults": mc["trainer_defaults"], "connection_index": ci, "weight_index": w,
+            "connection": mc["connections"][ci]["conn"], "geometry": mc["connections"][ci]["geom"],
+            "cells_in_registration_order": [{"connection": c["connection"], "neuron_group": c["group"], "overrides": c["override"],
+                                             "effective_params": c["params"], "effective_reduction": c["red"]} for c in mc["cells"]],
+            "delay_of_this_weight_per_step_ms": [float(d[w]) for d in delays],
+            "history of this weight per cell on the connection (pre:post, ';' between batch samples)": hist}
+
+
 class Runner:
     def __init__(self, ctx, ex):
         self.ctx, self.ex, self.cases = ctx, ex, []
@@ -398,24 +607,98 @@ class Runner:
         if len([s for s in self.ex.samples if s["family"] == family]) < 1 and geom_sizes(case["conn"], case["geom"])[2] <= 16:
             self.ex.samples.append({"family": family, **case})
 
+    def add_multi(self, mc, family):
+        self.cases.append((mc, family))
+        if len([s for s in self.ex.samples if s.get("family") == family]) < 1:
+            self.ex.samples.append({"family": family, **mc})
+
     def flush(self):
         ctx, ex = self.ctx, self.ex
         all_lines, plan = [], []
         for case, family in self.cases:
-            reals = {v: run_real(case, v) for v in case["variants"]}
+            multi = bool(case.get("multi"))
+            reals = {v: (run_real_multi if multi else run_real)(case, v) for v in case["variants"]}
             spans = {}
             tstr = None
             for v, real in reals.items():
                 if "exc" in real:
                     continue
-                lines, tstr = request_lines(case, v, real["delays"])
-                spans[v] = (len(all_lines), len(all_lines) + len(lines))
+                if multi:
+                    lines, sp, tstr = multi_requests(case, v, real)
+                    spans[v] = (len(all_lines), len(all_lines) + len(lines), sp, tstr)
+                else:
+                    lines, tstr = request_lines(case, v, real["delays"])
+                    spans[v] = (len(all_lines), len(all_lines) + len(lines))
                 all_lines += lines
             plan.append((case, family, reals, spans, tstr))
         resp = ctx.run_driver(DRIVER, all_lines) if all_lines else []
         for case, family, reals, spans, tstr in plan:
-            self.judge_case(case, family, reals, {v: resp[a:b] for v, (a, b) in spans.items()}, tstr)
+            if case.get("multi"):
+                self.judge_case_multi(case, family, reals, {v: (resp[sp[0]:sp[1]], sp[2], sp[3]) for v, sp in spans.items()})
+            else:
+                self.judge_case(case, family, reals, {v: resp[a:b] for v, (a, b) in spans.items()}, tstr)
         self.cases = []
+
+    def judge_case_multi(self, mc, family, reals, resps):
+        ex = self.ex
+        ex.traces_validated += 1
+        ex.count("family", family)
+        ex.count("mode", mc["mode"])
+        ex.count("batch", str(mc["B"]))
+        ex.count("layer", f"{mc['multi']} {len(mc['connections'])}x{len(mc['groups'])}, {len(mc['cells'])} cell(s) registered")
+        dp = mc["trainer_defaults"]["params"]
+        for cell in mc["cells"]:
+            ex.count("connection", mc["connections"][cell["connection"]]["conn"])
+            ex.count("reduction", cell["red"])
+            flips = [k for k in ("lrPos", "lrNeg") if k in cell["override"] and (cell["params"][k] >= 0) != (dp[k] >= 0)]
+            ex.count("per_cell_override", ("sign of " + "+".join(flips) + " flipped") if flips else
+                     ("same signs" if cell["override"] else "none"))
+        shared = len({c["connection"] for c in mc["cells"]}) < len(mc["cells"])
+        for v, real in reals.items():
+            ex.count("variant", v)
+            who = f"{NAMES[v]} on a {mc['multi']} layer ({len(mc['connections'])} connection(s) x {len(mc['groups'])} neuron group(s), cells " + \
+                  ", ".join(f"(c{c['connection']}, n{c['group']})" + (f" overriding {'/'.join(c['override'])}" if c["override"] else "")
+                            for c in mc["cells"]) + ")"
+            if "exc" in real:
+                self.add_finding("spec", f"C18:multi-cell:raises:{v}", f"{who} raised {real['exc']} at step {real['step']} instead of producing an update",
+                                 {"case": dict(mc, variants=[v]), "raised": real["exc"], "step": real["step"]}, 2)
+                continue
+            resp, spans, tstrs = resps[v]
+            for k, cell in enumerate(mc["cells"]):
+                delays = real["conns"][cell["connection"]]["delays"]
+                ex.evaluations += len(tstrs[k]) * mc["T"]
+                cfgkey = (v, "multi", tuple(sorted(cell["params"].items())), cell["red"], mc["B"], repr(mc["signal"]) if v.startswith("dam") else "")
+                for w, s in enumerate(tstrs[k]):
+                    if any("1" in x.split(":")[0] and "1" in x.split(":")[1] for f in s.split(";") for x in f.split(",")):
+                        ex.nontriv((cfgkey, tuple(float(d[w]) for d in delays), s))
+            for ci, name, w, t, what, exp, obs, hist in judge_multi(mc, v, real, resp, spans, tstrs):
+                kindf = "spec" if name == "S" else "model"
+                key = f"C18:multi-cell:{'formula' if name == 'S' else 'model'}:{v.split('-')[0]}"
+                stream = ("documented formula from each cell's OWN true last-spike times and effective hyper-parameters (S)" if name == "S"
+                          else "code-shaped model (M)")
+                self.add_finding(kindf, key, f"{who}: connection c{ci} {what} after step {t}: real {obs} vs {stream} {exp}"
+                                 f"{' (sum over the cells sharing the connection)' if shared else ''} [histories {hist} "
+                                 f"delays {[float(d[w]) for d in real['conns'][ci]['delays']]}]",
+                                 {"case": dict(mc, variants=[v]), "weight": describe_multi(mc, ci, w, hist, real["conns"][ci]["delays"]),
+                                  "step": t, "expected": exp, "observed": obs, "stream": name, "variant": v})
+        for a, b, rel in PAIRS:
+            if a in reals and b in reals and "exc" not in reals[a] and "exc" not in reals[b]:
+                for ci in range(len(mc["connections"])):
+                    ks = cells_on(mc, ci)
+                    if not ks:
+                        continue
+                    ex.count("differential", f"{a}~{b}")
+                    ex.evaluations += len(reals[a]["conns"][ci]["steps"])
+                    d = differential(None, a, b, reals[a]["conns"][ci], reals[b]["conns"][ci])
+                    if d:
+                        t, w, label, va, vb = d
+                        tstrs = resps[a][2]
+                        hist = {f"cell{k}": tstrs[k][w] for k in ks}
+                        self.add_finding("spec", f"C18:multi-cell:differential:{rel}:{a}~{b}",
+                                         f"{NAMES[a]} and {NAMES[b]}, same multi-cell configuration, disagree on accumulator {label} of connection c{ci} "
+                                         f"after step {t}: {va} vs {vb} [histories {hist}]",
+                                         {"case": dict(mc, variants=[a, b]), "weight": describe_multi(mc, ci, w, hist, reals[a]["conns"][ci]["delays"]),
+                                          "step": t, "first": va, "second": vb, "relation": rel})
 
     def add_finding(self, kind, key, what, payload, limit=3):
         if len([f for f in self.ex.findings if f.key == key]) < limit:
@@ -567,12 +850,28 @@ def explore(ctx) -> Exploration:
             set_ktensor(rng, case, rng.choice(["0d", "const", "perw"]))
         R.add(case, "episodes")
     R.flush()
+
+    # (4) CONFIGURATIONS: per-cell overrides of the trainer's defaults (either sign, whatever the sign of the default) on a Serial cell,
+    #     and two or more cells of a multi-connection / multi-group Biclique layer registered with ONE trainer — every cell judged
+    #     against the formula of its own spike times and effective hyper-parameters
+    nmc = 126 if heavy else 42
+    for r in range(nmc):
+        variants, sm = groups[r % len(groups)]
+        topo = "serial" if (r // len(groups)) % 3 == 0 else "biclique"
+        R.add_multi(make_multi(rng, variants, topo, rng.choice(["end", "each", "sched"]), signal_mode=sm, zero_delay="k" in variants),
+                    "per-cell-overrides" if topo == "serial" else "multi-cell-layer")
+        if len(R.cases) >= 42:
+            R.flush()
+    R.flush()
     ex.rule = ("(1) a dense 2^T x 2^T layer (T = 4 quick / 6 thorough) in which synapse (i -> j) carries pre history i and post history j — every "
                "pre/post history of that length, all its prefixes compared step by step — per sign mode and trainer group, with delays on a "
                "half-step grid, fixed ('end'), reset before every step ('sched') or learned ('each', delay trainers); (2) random histories on dense / "
                "direct / lateral / conv cells, batches 1-4, sum / mean, scalar and per-sample signals; (3) two-episode runs with trainer.clear(keepshape=True|False) "
                "in the middle, the second episode judged from post-clear spikes only; the kernel trainers get their rates / time constants as floats, 0-d tensors, "
-               "weight-shaped constant tensors or per-weight tensors.  Each real trainer is compared with the "
+               "weight-shaped constant tensors or per-weight tensors; (4) configurations: a Serial cell registered with per-cell overrides of the trainer's "
+               "learning rates (either sign) / time constants / batch reduction, and Biclique layers (1-3 connections x 1-2 neuron groups, dense / direct / lateral) "
+               "with two or more cells registered in random order with one trainer, each with its own overrides, each connection's accumulators judged "
+               "against the sum of the documented updates of the cells on it, computed from each cell's own spike trains.  Each real trainer is compared with the "
                "model (M), the formula from true last-spike times (S) and its sibling implementation.  One case = one weight's run of one "
                "trainer; non-trivial = both neurons of some receptive-field element spike; distinct = distinct (trainer, configuration, delays, history)")
     return ex
@@ -587,6 +886,29 @@ def replay(ctx, data) -> int:
     case = fi["case"]
     bad = 0
     reals = {}
+    if case.get("multi"):
+        for v in case["variants"]:
+            real = reals[v] = run_real_multi(case, v)
+            if "exc" in real:
+                print(f"{NAMES[v]} raised at step {real['step']}: {real['exc']}")
+                bad = 1
+                continue
+            for ci, o in enumerate(real["conns"]):
+                for t, (p, n, w) in enumerate(o["steps"]):
+                    print(f"{v} connection c{ci} step {t}: delay {o['delays'][t].tolist()} real pos {None if p is None else p.tolist()} "
+                          f"neg {None if n is None else n.tolist()} param {None if w is None else w.tolist()}")
+            lines, spans, tstrs = multi_requests(case, v, real)
+            for pr in judge_multi(case, v, real, ctx.run_driver(DRIVER, lines), spans, tstrs):
+                print("DISAGREEMENT", v, pr)
+                bad = 1
+        for a, b, rel in PAIRS:
+            if a in reals and b in reals and "exc" not in reals[a] and "exc" not in reals[b]:
+                for ci in range(len(case["connections"])):
+                    d = differential(None, a, b, reals[a]["conns"][ci], reals[b]["conns"][ci]) if cells_on(case, ci) else None
+                    if d:
+                        print("DIFFERENTIAL", rel, a, b, f"connection c{ci}", d)
+                        bad = 1
+        return bad
     for v in case["variants"]:
         real = run_real(case, v)
         reals[v] = real
